@@ -89,7 +89,9 @@ impl<'a> Gen<'a> {
     fn body(&mut self, formals: &[String]) -> String {
         let mut s = String::new();
         for _ in 0..self.rng.range(1, 5) {
-            match self.rng.below(14) {
+            match self.rng.below(15) {
+                // an `include produced by a macro expansion (ignore_include must reach it; depth counters are shared)
+                14 if self.allow_include && !self.files.is_empty() && self.rng.chance(1, 2) => { let i = self.rng.below(self.files.len()); s.push_str(&format!("`include \"{}\"", self.files[i])); self.tags.push("include-in-body"); }
                 0 | 1 if !formals.is_empty() => { let i = self.rng.below(formals.len()); s.push_str(&formals[i]) },
                 2 => s.push_str("``"),
                 3 => { s.push_str("`\""); if !formals.is_empty() { { let i = self.rng.below(formals.len()); s.push_str(&formals[i]) }; } s.push_str("`\""); }
@@ -106,8 +108,11 @@ impl<'a> Gen<'a> {
         s
     }
     fn arg(&mut self) -> String {
-        match self.rng.below(8) {
+        match self.rng.below(10) {
             0 => String::new(),
+            // comments inside an actual argument
+            8 => " y /* c */".into(),
+            9 => "z // c\n".into(),
             1 => "(a,b)".into(),
             2 => "\"s,t\"".into(),
             3 => "{1,2}".into(),
